@@ -290,7 +290,9 @@ class Sampler():
         for i in range(len(pool)):
             if pool[i] in [None, 1]:
                 pool[i] = None
-            elif i == 0 and isinstance(pool[i], int):
+            elif (i == 0 and isinstance(pool[i], int) and
+                  not self.vectorized):
+                # A vectorized likelihood is evaluated in the main process.
                 pool[i] = NautilusPool(pool[i], likelihood=self.likelihood)
                 self.likelihood = likelihood_worker
             else:
